@@ -4,7 +4,7 @@ C01 part B2 — part 10: the transposition step of `combine_legs`: after `itrans
 the inverse permutation) are in standard form. Ingredients: the spectator axes keep their relative order in
 `transp`, so the spectator axes of the transposed tensor are the images of the old ones, in order.
 -/
-namespace TenpyModel.C01B2
+namespace TenpyModel.C01B2.Comb
 open TenpyModel.Core TenpyModel.C01B
 
 variable {α : Type}
@@ -189,4 +189,4 @@ theorem stdForm_transposed (rank : Nat) (cli0 : List (List Nat)) (na0 transp : L
   rw [e2, ← insFold_map, ← List.map_flatten, ← hr.transp]
   exact transp_map_inv rank transp hp
 
-end TenpyModel.C01B2
+end TenpyModel.C01B2.Comb
